@@ -298,8 +298,147 @@ Proof.
   cbn in Gsd. apply (veqb_true F HF) in Gsd. exact Gsd.
 Qed.
 
-Lemma is_item_new ch' : is_item (Tree r_diag_item ch') = true.
-Proof. reflexivity. Qed.
+(* dropping the repeat count keeps the other readings and makes the count 1 *)
+Lemma remove_n_readings (ch : list node) :
+  item_init V F (remove_rule r_n ch) = item_init V F ch /\ item_n (remove_rule r_n ch) = Ok 1%N
+  /\ has r_FIX (remove_rule r_n ch) = has r_FIX ch /\ has r_SD (remove_rule r_n ch) = has r_SD ch
+  /\ has r_VAR (remove_rule r_n ch) = has r_VAR ch.
+Proof.
+  unfold remove_rule.
+  assert (Hf : forall r, Pos.eqb r_n r = false -> forall Q : node -> bool, (forall c, Q c = true -> has_rule r c = true) ->
+            filter Q (filter (fun c => negb (has_rule r_n c)) ch) = filter Q ch).
+  { intros r H1 Q HQ. induction ch as [|c tl IH]; [reflexivity|]. cbn [filter].
+    destruct (has_rule r_n c) eqn:En; cbn [negb filter]; [|rewrite IH; reflexivity].
+    destruct (Q c) eqn:Eq; [|exact IH]. exfalso. apply HQ in Eq. rewrite (rule_pred_false r r_n c H1 En) in Eq. discriminate. }
+  split; [|split; [|split; [|split]]].
+  - unfold item_init, init_value. rewrite !subtree_filter.
+    rewrite (Hf r_init eq_refl (fun c => is_tree c && has_rule r_init c)); [reflexivity|].
+    intros c H. apply andb_true_iff in H. tauto.
+  - unfold item_n, multiple. rewrite find_filter.
+    assert (E : filter (has_rule r_n) (filter (fun c => negb (has_rule r_n c)) ch) = []).
+    { clear Hf. induction ch as [|c tl IH]; [reflexivity|]. cbn [filter].
+      destruct (has_rule r_n c) eqn:En; cbn [negb]; [exact IH|]. cbn [filter]. rewrite En. exact IH. }
+    rewrite E. reflexivity.
+  - unfold has. rewrite !find_filter, (Hf r_FIX eq_refl (has_rule r_FIX)); [reflexivity | auto].
+  - unfold has. rewrite !find_filter, (Hf r_SD eq_refl (has_rule r_SD)); [reflexivity | auto].
+  - unfold has. rewrite !find_filter, (Hf r_VAR eq_refl (has_rule r_VAR)); [reflexivity | auto].
+Qed.
+
+Definition conv (sd : bool) (p : oparam V) : V * bool := (if sd then fsqrt F (o_init p) else o_init p, o_fix p).
+
+(* the split branch (since commit b54b188): one item per parameter, each meaning exactly its parameter *)
+Lemma split_items_spec (sd var : bool) (grp : list (oparam V)) : forall cur c0,
+  item_init V F cur = Ok c0 -> item_n cur = Ok 1%N -> has r_SD cur = sd -> has r_VAR cur = var ->
+  sd && var = false ->
+  forallb (g_sd_exact V F sd) grp = true -> forallb (g_owritten V F sd) grp = true ->
+  exists out,
+    split_items V F cur (map (conv sd) grp) = Ok out
+    /\ mapM (item_vals V F) (map children (subtrees r_diag_item out)) = Ok (map (fun p => [p]) grp).
+Proof.
+  induction grp as [|p tl IH]; intros cur c0 Hi Hn Hsd Hvar Hsv Gsd Gw.
+  - exists []. split; reflexivity.
+  - cbn [forallb] in Gsd, Gw. apply andb_true_iff in Gsd, Gw. destruct Gsd as [Gsd1 Gsd2]. destruct Gw as [Gw1 Gw2].
+    cbn [map split_items conv].
+    set (v := if sd then fsqrt F (o_init p) else o_init p).
+    destruct (set_init_spec V F HF cur v c0 Hi) as [ch1 [Hs [Hi1 [Hf1 [Hsd1 [Hv1 Hn1]]]]]].
+    rewrite Hs. cbn [bind].
+    set (ch2 := if o_fix p && negb (has r_FIX ch1) then add_fix ch1
+                else if negb (o_fix p) && has r_FIX ch1 then rtas r_FIX ch1 else ch1).
+    assert (R : item_init V F ch2 = Ok v /\ item_n ch2 = Ok 1%N /\ has r_SD ch2 = sd /\ has r_VAR ch2 = var
+                /\ has r_FIX ch2 = o_fix p).
+    { unfold ch2. destruct (o_fix p) eqn:Ef; destruct (has r_FIX ch1) eqn:Eh; cbn [andb negb].
+      - rewrite Hi1, Hn1, Hn, Hsd1, Hv1, Hsd, Hvar. repeat split; reflexivity || exact Eh.
+      - destruct (add_fix_readings ch1) as [Hfx Hr]. destruct (readings_same V F _ _ Hr) as [A [B [C D]]].
+        rewrite A, B, C, D, Hi1, Hn1, Hn, Hsd1, Hv1, Hfx, Hsd, Hvar. repeat split; reflexivity.
+      - destruct (rtas_fix_readings ch1) as [Hfx Hr]. destruct (readings_same V F _ _ Hr) as [A [B [C D]]].
+        rewrite A, B, C, D, Hi1, Hn1, Hn, Hsd1, Hv1, Hfx, Hsd, Hvar. repeat split; reflexivity.
+      - rewrite Hi1, Hn1, Hn, Hsd1, Hv1, Hsd, Hvar. repeat split; reflexivity || exact Eh. }
+    destruct R as [Ri [Rn [Rsd [Rvar Rfix]]]].
+    destruct (IH ch2 v Ri Rn Rsd Rvar Hsv Gsd2 Gw2) as [rest [Hrest Hvals]].
+    rewrite Hrest. cbn [bind].
+    eexists. split; [reflexivity|].
+    assert (Hsub : forall l, subtrees r_diag_item (Tree r_diag_item ch2 :: match tl with [] => [] | _ => [ws_tree] end ++ l)
+                   = Tree r_diag_item ch2 :: subtrees r_diag_item l).
+    { intro l. destruct tl; reflexivity. }
+    assert (Hmap : match map (conv sd) tl with [] => [] | _ :: _ => [ws_tree] end = match tl with [] => [] | _ => [ws_tree] end)
+      by (destruct tl; reflexivity).
+    rewrite Hmap, Hsub. cbn [map children]. apply mapM_cons; [|exact Hvals].
+    unfold item_vals. rewrite Ri, Rn, Rsd, Rvar, Rfix. cbn [bind]. rewrite Hsv.
+    unfold g_owritten in Gw1. fold v in Gw1.
+    assert (Hz : veqb F v (vzero F) && negb (o_fix p) = false).
+    { destruct (o_fix p); [apply andb_false_r|]. cbn in Gw1. apply negb_true_iff in Gw1. rewrite Gw1. reflexivity. }
+    rewrite Hz. unfold rep. change (N.to_nat 1) with 1%nat. cbn [repeat]. f_equal. f_equal.
+    destruct p as [pi pf]. cbn [o_init o_fix] in *. f_equal. unfold v.
+    unfold g_sd_exact in Gsd1. destruct sd; [|reflexivity].
+    cbn in Gsd1. apply (veqb_true F HF) in Gsd1. exact Gsd1.
+Qed.
+
+Lemma all_eqb_all {A} (eqb : A -> A -> bool) (l : list A) x tl :
+  (forall a b, eqb a b = true -> a = b) -> l = x :: tl -> all_eqb eqb l = true -> l = repeat x (length l).
+Proof.
+  intros E -> H. cbn [all_eqb] in H. cbn [length repeat]. f_equal.
+  induction tl as [|y tl IH]; [reflexivity|]. cbn [forallb] in H. apply andb_true_iff in H. destruct H as [H1 H2].
+  apply E in H1. subst y. cbn [length repeat]. f_equal. exact (IH H2).
+Qed.
+
+(* update of one item with its group of parameters, uniform or not *)
+Lemma update_item_spec (ch : list node) (grp : list (oparam V)) (n : N) (cur : V) :
+  item_init V F ch = Ok cur -> item_n ch = Ok n -> length grp = N.to_nat n -> N.eqb n 0 = false ->
+  forallb (g_sd_exact V F (has r_SD ch)) grp = true -> forallb (g_owritten V F (has r_SD ch)) grp = true ->
+  has r_SD ch && has r_VAR ch = false ->
+  exists out VS, update_item V F ch grp = Ok out
+    /\ mapM (item_vals V F) (map children (subtrees r_diag_item out)) = Ok VS /\ concat VS = grp.
+Proof.
+  intros Hi Hn Hlen Hn0 Gsd Gw Hsv.
+  destruct grp as [|p grp'] eqn:Eg; [cbn in Hlen; apply N.eqb_neq in Hn0; lia|]. rewrite <- Eg in *.
+  set (sd := has r_SD ch) in *.
+  set (vals := map (conv sd) grp).
+  assert (Hvals : map (fun q => (if sd then fsqrt F (o_init q) else o_init q, o_fix q)) grp = vals) by reflexivity.
+  unfold update_item. fold sd. rewrite Hvals.
+  assert (Hv0 : vals = conv sd p :: map (conv sd) grp') by (unfold vals; rewrite Eg; reflexivity).
+  rewrite Hv0. cbv iota beta. rewrite <- Hv0. unfold conv at 1. cbv iota beta.
+  destruct (Nat.eqb (length vals) 1 || (all_eqb (veqb F) (map fst vals) && all_eqb Bool.eqb (map snd vals))) eqn:Eu.
+  - (* one item: all converted values are equal, hence (exact SD scale) all parameters *)
+    assert (Hall : grp = repeat p (N.to_nat n)).
+    { rewrite <- Hlen.
+      assert (Hc : forall q, In q grp -> conv sd q = conv sd p).
+      { apply orb_true_iff in Eu. destruct Eu as [Eu|Eu].
+        - apply Nat.eqb_eq in Eu. unfold vals in Eu. rewrite map_length in Eu. rewrite Eg in *.
+          destruct grp'; [|discriminate]. intros q [<-|[]]. reflexivity.
+        - apply andb_true_iff in Eu. destruct Eu as [E1 E2].
+          assert (F1 : map fst vals = repeat (fst (conv sd p)) (length (map fst vals))).
+          { apply (all_eqb_all (veqb F) _ (fst (conv sd p)) (map fst (map (conv sd) grp')) (veqb_true F HF)); [rewrite Hv0; reflexivity | exact E1]. }
+          assert (F2 : map snd vals = repeat (snd (conv sd p)) (length (map snd vals))).
+          { apply (all_eqb_all Bool.eqb _ (snd (conv sd p)) (map snd (map (conv sd) grp')) Bool.eqb_prop); [rewrite Hv0; reflexivity | exact E2]. }
+          intros q Hq. assert (Hin : In (conv sd q) vals) by (unfold vals; apply in_map; exact Hq).
+          destruct (conv sd q) as [a b] eqn:Eq. destruct (conv sd p) as [a0 b0] eqn:Ep. cbn [fst snd] in *.
+          assert (In a (map fst vals)) by (change a with (fst (a, b)); apply in_map; exact Hin).
+          assert (In b (map snd vals)) by (change b with (snd (a, b)); apply in_map; exact Hin).
+          rewrite F1 in H. rewrite F2 in H0. apply repeat_spec in H, H0. subst. reflexivity. }
+      assert (Hp : forall q, In q grp -> q = p).
+      { intros q Hq. pose proof (Hc q Hq) as E. unfold conv in E. injection E as E1 E2.
+        assert (Gq : g_sd_exact V F sd q = true) by (rewrite forallb_forall in Gsd; apply Gsd; exact Hq).
+        assert (Gp : g_sd_exact V F sd p = true) by (rewrite forallb_forall in Gsd; apply Gsd; rewrite Eg; left; reflexivity).
+        destruct q as [qi qf], p as [pi pf]. cbn [o_init o_fix] in *. subst qf. f_equal.
+        unfold g_sd_exact in Gq, Gp. cbn [o_init] in Gq, Gp. destruct sd; [|exact E1].
+        cbn in Gq, Gp. apply (veqb_true F HF) in Gq, Gp. rewrite <- Gq, <- Gp, E1. reflexivity. }
+      clear -Hp. induction grp as [|q tl IH]; [reflexivity|]. cbn [length repeat].
+      rewrite (Hp q (or_introl eq_refl)). f_equal. apply IH. intros x Hx. apply Hp. right. exact Hx. }
+    assert (Gsd1 : g_sd_exact V F sd p = true) by (rewrite forallb_forall in Gsd; apply Gsd; rewrite Eg; left; reflexivity).
+    assert (Gw1 : g_owritten V F sd p = true) by (rewrite forallb_forall in Gw; apply Gw; rewrite Eg; left; reflexivity).
+    destruct (update_item_uniform ch p n cur Hi Hn Hn0 Gsd1 Gw1 Hsv) as [c' [Hu Hv]].
+    unfold update_item in Hu. fold sd in Hu. rewrite <- Hall, Hvals, Hv0 in Hu. cbv iota beta in Hu. rewrite <- Hv0 in Hu.
+    unfold conv at 1 in Hu. cbv iota beta in Hu. rewrite Eu in Hu.
+    exists [Tree r_diag_item c'], [rep n p]. split; [exact Hu|]. split.
+    + cbn. rewrite Hv. reflexivity.
+    + cbn [concat]. rewrite app_nil_r. unfold rep. symmetry. exact Hall.
+  - (* the group is split *)
+    destruct (remove_n_readings ch) as [R1 [R2 [R3 [R4 R5]]]].
+    destruct (split_items_spec sd (has r_VAR ch) grp (remove_rule r_n ch) cur (eq_trans R1 Hi) R2 R4 R5 Hsv Gsd Gw)
+      as [out [Ho Hv]].
+    exists out, (map (fun q => [q]) grp). split; [exact Ho|]. split; [exact Hv|].
+    clear. induction grp as [|q tl IH]; [reflexivity|]. cbn. f_equal. exact IH.
+Qed.
 
 Lemma ovalues_update (ch : list node) (ps : list (oparam V)) :
   oguard_children V F ch ps = true ->
@@ -317,29 +456,28 @@ Proof.
       apply andb_true_iff in G. destruct G as [Gi Gtl].
       unfold oguard_item in Gi.
       apply andb_true_iff in Gi. destruct Gi as [Gi Gsv]. apply andb_true_iff in Gi. destruct Gi as [Gi Gw].
-      apply andb_true_iff in Gi. destruct Gi as [Gi Gsd]. apply andb_true_iff in Gi. destruct Gi as [Gi Gx].
+      apply andb_true_iff in Gi. destruct Gi as [Gi Gsd].
       apply andb_true_iff in Gi. destruct Gi as [Glen Gn0].
       apply Nat.eqb_eq in Glen. apply negb_true_iff in Gn0. apply negb_true_iff in Gsv.
       cbn [bind].
       assert (Hlt : Nat.ltb (length ps) (N.to_nat n) = false).
       { apply Nat.ltb_ge. rewrite <- Glen. rewrite firstn_length. lia. }
       rewrite Hlt.
-      destruct (firstn (N.to_nat n) ps) as [|p grp'] eqn:Egrp.
-      { exfalso. cbn in Glen. apply N.eqb_neq in Gn0. lia. }
-      pose proof (oxn_repeat (children c) _ p grp' eq_refl Gx) as Hrep. rewrite Glen in Hrep.
-      rewrite Hrep in Gsd, Gw.
-      assert (Gsd1 : g_sd_exact V F (has r_SD (children c)) p = true).
-      { destruct (N.to_nat n); [discriminate|]. cbn in Gsd. apply andb_true_iff in Gsd. tauto. }
-      assert (Gw1 : g_owritten V F (has r_SD (children c)) p = true).
-      { destruct (N.to_nat n); [discriminate|]. cbn in Gw. apply andb_true_iff in Gw. tauto. }
-      destruct (update_item_uniform (children c) p n cur Ei En Gn0 Gsd1 Gw1 Gsv) as [c' [Hu Hv]].
-      rewrite Hrep, Hu. cbn [bind].
+      destruct (update_item_spec (children c) (firstn (N.to_nat n) ps) n cur Ei En Glen Gn0 Gsd Gw Gsv)
+        as [out [VS0 [Hu [Hv Hc]]]].
+      rewrite Hu. cbn [bind].
       destruct (IH _ Gtl) as [tl' [VS [Hutl [HVS Hcat]]]]. rewrite Hutl. cbn [bind].
-      exists ([Tree r_diag_item c'] ++ tl'), (rep n p :: VS). split; [reflexivity|].
-      change (map children (subtrees r_diag_item ([Tree r_diag_item c'] ++ tl')))
-        with (c' :: map children (subtrees r_diag_item tl')).
-      split; [apply mapM_cons; assumption|].
-      cbn [concat]. rewrite Hcat. unfold rep. rewrite <- Hrep, <- Egrp. apply firstn_skipn.
+      exists (out ++ tl'), (VS0 ++ VS). split; [reflexivity|].
+      assert (Hsub : subtrees r_diag_item (out ++ tl') = subtrees r_diag_item out ++ subtrees r_diag_item tl').
+      { unfold subtrees. apply filter_app. }
+      rewrite Hsub, map_app. split.
+      { clear -Hv HVS. revert VS0 Hv. generalize (map children (subtrees r_diag_item out)) as l.
+        induction l as [|x xs IHx]; intros VS0 Hv.
+        - cbn in Hv. injection Hv as <-. exact HVS.
+        - cbn [mapM app] in *. destruct (item_vals V F x) as [y|]; [|discriminate]. cbn [bind] in *.
+          destruct (mapM (item_vals V F) xs) as [ys|] eqn:Ey; [|discriminate]. cbn [bind] in Hv. injection Hv as <-.
+          rewrite (IHx ys eq_refl). reflexivity. }
+      rewrite concat_app, Hc, Hcat. apply firstn_skipn.
     + destruct (IH _ G) as [tl' [VS [Hutl [HVS Hcat]]]]. rewrite Hutl. cbn [bind].
       exists (c :: tl'), VS. split; [reflexivity|].
       assert (Hs : subtrees r_diag_item (c :: tl') = subtrees r_diag_item tl').
